@@ -183,7 +183,20 @@ def avgOf (xs : List Value) : Option Value :=
     | _, _, some ns => if partialSumsOk inIv 0 ns then some (.interval (Int.tdiv (intSum ns) ns.length)) else none
     | _, _, _ => none
 
-/-- STDDEV / VARIANCE (population) from Σx, Σx² and n, in REAL arithmetic as the code does it -/
+/-- **POPULATION variance** (divisor `n`, not `n − 1`) by the one-pass formula "mean of the squares minus the square of the
+mean": `(Σx² − (Σx)²/n) / n`, evaluated in REAL arithmetic in exactly this order, from the REAL forms `s` of Σx and `q` of
+Σx². The property sentence and the README (`stddev(x)`, `variance(x)`) say neither "population" nor "sample" and fix no
+evaluation order: population and this order are THE CODE'S CHOICE, recorded here as the specification's own definition
+(the model's `stddevCalc` is proved equal to it: `Lemmas/AggSums.lean` `stddevCalc_eq_spread`; the harness reference
+computes the population variance over exact rationals). Cancellation can make it slightly negative, STDDEV is then NaN. -/
+def populationVariance (n : Int) (s q : Nat) : Nat :=
+  F64.div (F64.sub q (F64.div (F64.mul s s) (F64.ofInt n))) (F64.ofInt n)
+
+/-- VARIANCE, or STDDEV = its square root -/
+def spread (n : Int) (isVariance : Bool) (s q : Nat) : Nat :=
+  if isVariance then populationVariance n s q else F64.sqrt (populationVariance n s q)
+
+/-- STDDEV / VARIANCE (population) from Σx, Σx² and n -/
 def stddevOf (isVariance : Bool) (xs : List Value) : Option Value :=
   match xs with
   | [] => some .null
@@ -192,11 +205,11 @@ def stddevOf (isVariance : Bool) (xs : List Value) : Option Value :=
     | some is, _ =>
       let sq := is.map (fun x => x * x)
       if sq.all inI64 && partialSumsOk inI64 0 is && partialSumsOk inI64 0 sq then
-        some (.real (stddevCalc is.length isVariance (F64.ofInt (intSum is)) (F64.ofInt (intSum sq))))
+        some (.real (spread is.length isVariance (F64.ofInt (intSum is)) (F64.ofInt (intSum sq))))
       else none
     | _, some rs =>
       let sq := rs.map (fun x => F64.mul x x)
-      if zeroNeutral rs && zeroNeutral sq then some (.real (stddevCalc rs.length isVariance (realSum rs) (realSum sq)))
+      if zeroNeutral rs && zeroNeutral sq then some (.real (spread rs.length isVariance (realSum rs) (realSum sq)))
       else none
     | _, _ => none
 
